@@ -978,17 +978,31 @@ class DisjointSet(object):
                 for k in groupb:
                     self.leader[k] = leadera
             else:
-                self.group[leadera].add(b)
-                self.leader[b] = leadera
+                self._add_to_group(leadera, b)
         else:
             if leaderb is not None:
-                self.group[leaderb].add(a)
-                self.leader[a] = leaderb
+                self._add_to_group(leaderb, a)
             else:
                 if self.comp is not None and self.comp(a, b) > 0:
                     a, b = b, a
                 self.leader[a] = self.leader[b] = a
                 self.group[a] = set([a, b])
+
+    def _add_to_group(self, leader: FNode, k: FNode):
+        """Add the new element k to the group of leader.
+
+        The ranking is respected: k becomes the new leader of the
+        group if it ranks before the current one.
+        """
+        group = self.group[leader]
+        group.add(k)
+        if self.comp is not None and self.comp(k, leader) < 0:
+            del self.group[leader]
+            self.group[k] = group
+            for m in group:
+                self.leader[m] = k
+        else:
+            self.leader[k] = leader
 
     def find(self, k: FNode) -> FNode:
         """Find the root of k in the set"""
